@@ -141,13 +141,17 @@ def s20_unsafe_twins(ctx):
     for d in sorted(diamond_fns):
         h = fu.hir[d]
         ifs = []
-        _find(h['body'], lambda e: e.get('e') == 'if' and _is_cfg_lit(e.get('cond')) and e['cond']['v'] == 'true', ifs)
+        _find(h['body'], lambda e: e.get('e') == 'if' and _is_cfg_lit(e.get('cond')), ifs)
         for ife, cx in ifs:
             # only outermost selector ifs
             if any(e.get('e') == 'if' and _is_cfg_lit(e.get('cond')) for e, k in cx):
                 continue
             n_diamonds += 1
             key = 'diamond|%s@%s' % (d, '')
+            if ife['cond']['v'] != 'true':
+                r.violate('diamond|%s|selector-off-in-feature-build' % d, 'a cfg! selector of %s is false in the unsafe_performance build: the '
+                          'arms are swapped with respect to the feature' % d, h['file'], ife.get('l'))
+                continue
             then_ = _unwrap_block(ife['then'])
             else_ = _unwrap_block(ife['else']) if ife.get('else') else None
             t_inner = None
